@@ -26,6 +26,11 @@ func (node *Node) HandleTx(ctx context.Context, tx *wire.MsgTx) error {
 }
 
 func (node *Node) processUnconfirmedTx(ctx context.Context, tx handlers.TxData) error {
+	// Don't process a tx while a block is being processed. The block needs the saved state of every
+	// tx in the unconfirmed set, and the tx needs to see if the block confirmed it.
+	node.blockLock.Lock()
+	defer node.blockLock.Unlock()
+
 	hash := tx.Msg.TxHash()
 
 	if tx.ConfirmedHeight != -1 {
